@@ -60,6 +60,12 @@ EXPLANATION += (
     'list or the one returned with the aggregated votes.'
 )
 
+EXPLANATION += (
+    " Round 3: a voted level's average correlation is replaced only "
+    'under an `is None` test; zipped neighbour / correlation lists are '
+    'filled in lock-step.'
+)
+
 RULE_TEXT = (
     "one obligation per draw, per block, per indexed comprehension, per "
     "provenance relation, per kernel function x configuration (type and "
